@@ -2,6 +2,7 @@ import ast
 import operator
 import re
 from functools import reduce
+from inspect import isawaitable
 from typing import Callable
 
 replacements = {"!": "not ", "^": " and ", "v": " or "}
@@ -32,9 +33,28 @@ def replace_operators(expr: str) -> str:
     return pattern.sub(match_func, expr)
 
 
+def _any_coroutine(*operands: Callable) -> bool:
+    """Operands resolved from coroutine functions are flagged with `is_coroutine`."""
+    return any(getattr(operand, "is_coroutine", False) for operand in operands)
+
+
+async def _resolve(value):
+    if isawaitable(value):
+        return await value
+    return value
+
+
 def custom_not(predicate: Callable) -> Callable:
-    def decorated(*args, **kwargs) -> bool:
-        return not predicate(*args, **kwargs)
+    if _any_coroutine(predicate):
+
+        async def decorated(*args, **kwargs) -> bool:
+            return not await _resolve(predicate(*args, **kwargs))
+
+        decorated.is_coroutine = True  # type: ignore[attr-defined]
+    else:
+
+        def decorated(*args, **kwargs) -> bool:  # type: ignore[misc]
+            return not predicate(*args, **kwargs)
 
     decorated.__name__ = f"not({predicate.__name__})"
     unique_key = getattr(predicate, "unique_key", "")
@@ -43,8 +63,19 @@ def custom_not(predicate: Callable) -> Callable:
 
 
 def custom_and(left: Callable, right: Callable) -> Callable:
-    def decorated(*args, **kwargs) -> bool:
-        return left(*args, **kwargs) and right(*args, **kwargs)  # type: ignore[no-any-return]
+    if _any_coroutine(left, right):
+
+        async def decorated(*args, **kwargs) -> bool:
+            value = await _resolve(left(*args, **kwargs))
+            if not value:
+                return value  # type: ignore[no-any-return]
+            return await _resolve(right(*args, **kwargs))  # type: ignore[no-any-return]
+
+        decorated.is_coroutine = True  # type: ignore[attr-defined]
+    else:
+
+        def decorated(*args, **kwargs) -> bool:  # type: ignore[misc]
+            return left(*args, **kwargs) and right(*args, **kwargs)  # type: ignore[no-any-return]
 
     decorated.__name__ = f"({left.__name__} and {right.__name__})"
     decorated.unique_key = _unique_key(left, right, "and")  # type: ignore[attr-defined]
@@ -52,8 +83,19 @@ def custom_and(left: Callable, right: Callable) -> Callable:
 
 
 def custom_or(left: Callable, right: Callable) -> Callable:
-    def decorated(*args, **kwargs) -> bool:
-        return left(*args, **kwargs) or right(*args, **kwargs)  # type: ignore[no-any-return]
+    if _any_coroutine(left, right):
+
+        async def decorated(*args, **kwargs) -> bool:
+            value = await _resolve(left(*args, **kwargs))
+            if value:
+                return value  # type: ignore[no-any-return]
+            return await _resolve(right(*args, **kwargs))  # type: ignore[no-any-return]
+
+        decorated.is_coroutine = True  # type: ignore[attr-defined]
+    else:
+
+        def decorated(*args, **kwargs) -> bool:  # type: ignore[misc]
+            return left(*args, **kwargs) or right(*args, **kwargs)  # type: ignore[no-any-return]
 
     decorated.__name__ = f"({left.__name__} or {right.__name__})"
     decorated.unique_key = _unique_key(left, right, "or")  # type: ignore[attr-defined]
@@ -73,8 +115,18 @@ def build_custom_operator(operator) -> Callable:
     operator_repr = comparison_repr[operator]
 
     def custom_comparator(left: Callable, right: Callable) -> Callable:
-        def decorated(*args, **kwargs) -> bool:
-            return bool(operator(left(*args, **kwargs), right(*args, **kwargs)))
+        if _any_coroutine(left, right):
+
+            async def decorated(*args, **kwargs) -> bool:
+                left_value = await _resolve(left(*args, **kwargs))
+                right_value = await _resolve(right(*args, **kwargs))
+                return bool(operator(left_value, right_value))
+
+            decorated.is_coroutine = True  # type: ignore[attr-defined]
+        else:
+
+            def decorated(*args, **kwargs) -> bool:  # type: ignore[misc]
+                return bool(operator(left(*args, **kwargs), right(*args, **kwargs)))
 
         decorated.__name__ = f"({left.__name__} {operator_repr} {right.__name__})"
         decorated.unique_key = _unique_key(left, right, operator_repr)  # type: ignore[attr-defined]
